@@ -781,7 +781,6 @@ def run_text(ctx, case, res):
         res.violation(case["key"], witness=case["text"], got=pr.got, expected=pr.exp)
     else:
         res.features.add("witness-passes")
-    res.sample = dict(family="witness", text=case["text"])
 
 
 def parts(D, L):
